@@ -258,7 +258,8 @@ func doCall(addr string, p *procInfo, hdr map[string]string, req proto.Message) 
 // The two-project world.
 
 type party struct {
-	User, Pass, Token string
+	OldPublic, OldSecret string // the project's keys before they were rotated (revoked)
+	User, Pass, Token    string
 	Project           *api.Project
 	Client            string // client id
 	ClientKey         string
@@ -373,6 +374,17 @@ func newAccessWorld(noDefault bool) *accessWorld {
 		up := must(ad.UpdateProject(ctx, connect.NewRequest(&api.UpdateProjectRequest{Id: p.Project.Id,
 			Fields: &api.UpdatableProjectFields{ChannelSessionTtl: wrapperspb.String("5m")}})))
 		p.Project = up.Msg.Project
+	}
+	// A's first keys are used once (whatever the server remembers about them is warm) and then rotated away
+	w.provision(w.a, "PUBLIC-A", "rev-a", "client-a", false)
+	w.a.OldPublic, w.a.OldSecret = w.a.Project.PublicKey, w.a.Project.SecretKey
+	{
+		ad := w.adminWith(map[string]string{types.AuthorizationKey: "Bearer " + w.a.Token})
+		rot := must(ad.RotateProjectKeys(ctx, connect.NewRequest(&api.RotateProjectKeysRequest{Id: w.a.Project.Id})))
+		w.a.Project = rot.Msg.Project
+		if w.a.Project.PublicKey == w.a.OldPublic {
+			fatal(2, "access setup: keys were not rotated")
+		}
 	}
 	w.provision(w.b, marker+"-content", marker+"-rev", marker+"-client", true)
 	// a schema in each project, one only in B
@@ -681,6 +693,8 @@ func (w *accessWorld) headers(svc, cred string) map[string]string {
 			h[types.APIKeyKey] = "not-a-real-key"
 		case "keyA":
 			h[types.APIKeyKey] = w.a.Project.PublicKey
+		case "revokedA":
+			h[types.APIKeyKey] = w.a.OldPublic
 		}
 	case "admin":
 		switch cred {
@@ -690,6 +704,8 @@ func (w *accessWorld) headers(svc, cred string) map[string]string {
 			h[types.AuthorizationKey] = "Bearer " + w.a.Token
 		case "secretA":
 			h[types.AuthorizationKey] = "API-Key " + w.a.Project.SecretKey
+		case "revokedSecretA":
+			h[types.AuthorizationKey] = "API-Key " + w.a.OldSecret
 		case "pubkeyB": // a public key is not an admin credential
 			h[types.AuthorizationKey] = "API-Key " + w.b.Project.PublicKey
 		}
